@@ -88,6 +88,6 @@ def main():
     }
     json.dump(m, open(os.path.join(V, "MANIFEST.json"), "w"), indent=1)
 
-HOOK_COMMITS = ["dc24f71", "7b630f7", "7afaea3", "096dc4a", "f4bae9a"]
+HOOK_COMMITS = ["dc24f71", "7b630f7", "7afaea3", "096dc4a", "f4bae9a", "c6d6fec"]
 if __name__ == "__main__":
     main()
